@@ -29,11 +29,11 @@ def run_impl(lines):
 
 
 def model_line(l):
-    return "0 |" if l.startswith(("101 ", "102 ", "104 ")) else l
+    return "0 |" if l.startswith(("101 ", "102 ", "104 ", "105 ")) else l
 
 
 def compare(l, impl_rows, model_rows):
-    if l.startswith(("101 ", "102 ", "104 ")):
+    if l.startswith(("101 ", "102 ", "104 ", "105 ")):
         return True          # behavioural direct-vs-opaque runs: decided by the implementation-side monitor alone
     return impl_rows == model_rows
 
@@ -51,6 +51,9 @@ def gen_cases(rng, tier):
     b, d2 = G.shapes_cases(rng.fork("more"), "thorough" if tier == "thorough" else tier)
     e, d4 = G.generic_cases(rng.fork("generic"), tier)
     f, d5 = G.fwd_cases(rng.fork("fwd"), tier)
+    x, dx = G.ext_cases(rng.fork("ext"), tier)
+    f = f + x
+    d5.update(dx)
     e = e + f
     d4.update(d5)
     d1.update(d2); d1.update(d4)
